@@ -701,6 +701,15 @@ pub fn gen(prop: &str, rng: &mut Rng, quick: bool, st: &mut Stats) -> Option<Vec
                 st.bump("directories_with_ten_byte_varints");
             }
             let big = valid_entries(rng, 9000, false, false, st);
+            // a directory of more than 16 KiB on its own, and archives whose metadata exceeds 16 KiB / 64 KiB
+            for (k, comp) in [Compression::None, Compression::None, Compression::GZip, Compression::ZStd].iter().enumerate() {
+                let mode = if k % 2 == 0 { "async" } else { "sync" };
+                c.push(format!("chk_sched dir_w {mode} {:x} - {} {}", rng.next(), comp_tok(*comp), entries_tok(&big)));
+                let blob: String = (0..(20_000 + 30_000 * k)).map(|i| char::from(b'a' + (i % 26) as u8)).collect();
+                let meta = format!("{{\"k\":\"{blob}\",\"n\":{k}}}");
+                c.push(format!("chk_sched write {mode} {:x} - c:{};m:{};a:3:0102;a:9:{}", rng.next(), comp_tok(*comp), hex_bytes(meta.as_bytes()), hex_bytes(&rng.bytes(40))));
+                st.bump("directories_and_metadata_over_16KiB_under_schedules");
+            }
             c.push(format!("chk_sched wdirs sync {:x} - none - {}", rng.next(), entries_tok(&big)));
             c.push(format!("chk_sched wdirs async {:x} - gzip 40 {}", rng.next(), entries_tok(&big)));
             // the model's combinators (IO.v) against std / futures on scheduled streams
